@@ -175,6 +175,15 @@ func c07Key(rp c07Rep) string {
 	return string(b)
 }
 
+func c07BlankOwner(key string) string {
+	var rp c07Rep
+	if json.Unmarshal([]byte(key), &rp) != nil {
+		return key
+	}
+	rp.Owner = ""
+	return c07Key(rp)
+}
+
 // problems of a locked config block (they must ignore rule-level comments); the JSON report does not carry the label
 // name, the config gives the locked blocks severities no other block of the same reporter uses
 func c07FromLocked(rp c07Rep) bool {
@@ -250,9 +259,22 @@ func c07Oracle(r *rand.Rand, rep *runReport, nfiles int) {
 				if byString != "" {
 					forms = append(forms, "disable-by-string", "file/disable-by-string", "disable-near-miss")
 				}
+				if len(seen) == 1 {
+					// once per rule: comments that are no disable/snooze of a configured check (C07_untargeted_comment_selection):
+					// other comment types and the partial promql/series(<selector>) forms must remove nothing
+					forms = append(forms, "other-rule/set", "other-rule/owner", "other-partial-series", "file/owner-other")
+				}
 				for _, form := range forms {
 					var text string
 					switch form {
+					case "other-rule/set":
+						text = "# pint rule/set " + pick(r, []string{"promql/series min-age 3d", "promql/series ignore/label-value job", "promql/series(up) min-age 1d"})
+					case "other-rule/owner":
+						text = "# pint rule/owner carol"
+					case "other-partial-series":
+						text = pick(r, []string{"# pint disable promql/series(up)", "# pint snooze 2099-01-01 promql/series(up)", "# pint disable promql/series({job=\"a\"})", "# pint disable " + rp.Reporter + "(up)"})
+					case "file/owner-other":
+						text = "# pint file/owner carol"
 					case "disable-by-string":
 						text = "# pint disable " + byString
 					case "file/disable-by-string":
@@ -338,6 +360,11 @@ func c07Oracle(r *rand.Rand, rep *runReport, nfiles int) {
 							t.Expected = append(t.Expected, c07Key(b))
 						}
 					}
+					if strings.Contains(form, "owner") { // the owner is no part of the problem: compared with the field blanked
+						for k := range t.Expected {
+							t.Expected[k] = c07BlankOwner(t.Expected[k])
+						}
+					}
 					sort.Strings(t.Before)
 					sort.Strings(t.Expected)
 					t.ID = len(trials)
@@ -368,6 +395,9 @@ func c07Oracle(r *rand.Rand, rep *runReport, nfiles int) {
 					}
 				}
 				rp.Lines = ls
+			}
+			if strings.Contains(t.Form, "owner") {
+				rp.Owner = ""
 			}
 			t.Got = append(t.Got, c07Key(rp))
 		}
